@@ -24,6 +24,7 @@ import (
 	"path/filepath"
 	"sort"
 	"strings"
+	"sync"
 	"syscall"
 	"time"
 
@@ -268,8 +269,8 @@ func runE2E(rie, self string, c e2eCase, withAgent bool) (*e2eResult, error) {
 	for _, k := range sortedKeys(c.environ) {
 		cmd.Env = append(cmd.Env, k+"="+c.environ[k])
 	}
-	var logb bytes.Buffer
-	cmd.Stdout, cmd.Stderr = &logb, &logb
+	logb := &syncBuffer{}
+	cmd.Stdout, cmd.Stderr = logb, logb
 	if err := cmd.Start(); err != nil {
 		return nil, err
 	}
@@ -349,7 +350,33 @@ func runE2E(rie, self string, c e2eCase, withAgent bool) (*e2eResult, error) {
 		}
 	}
 	res.log = tail(logb.String())
+	select {
+	case <-done:
+		// another process took one of the two ports between freePort() and the emulator's bind
+		// (the machine is shared): not an observation about the emulator, try again
+		if strings.Contains(logb.String(), "address already in use") {
+			return nil, fmt.Errorf("port taken meanwhile: %s", res.log)
+		}
+	default:
+	}
 	return res, nil
+}
+
+type syncBuffer struct {
+	mu sync.Mutex
+	b  bytes.Buffer
+}
+
+func (s *syncBuffer) Write(p []byte) (int, error) {
+	s.mu.Lock()
+	defer s.mu.Unlock()
+	return s.b.Write(p)
+}
+
+func (s *syncBuffer) String() string {
+	s.mu.Lock()
+	defer s.mu.Unlock()
+	return s.b.String()
 }
 
 func tail(s string) string {
@@ -437,7 +464,7 @@ func e2eCmd(args []string) int {
 	exec1 := func(id string, c e2eCase) {
 		var res *e2eResult
 		var err error
-		for try := 0; try < 3; try++ { // a start-up failure (port taken meanwhile) is retried
+		for try := 0; try < 5; try++ { // a start-up failure (port taken meanwhile) is retried
 			res, err = runE2E(rie, self, c, withAgent)
 			if err == nil {
 				break
